@@ -76,7 +76,26 @@ impl Family for C05Family {
                     }
                 }
                 if faulty && r.chance(1, 3) {
-                    op.faults.push(Fault { seam: SeamKind::Find, nth: 0, status: *r.pick(&[0x2E, 0x7F, 0x01, 0x28]), sticky: false });
+                    op.faults.push(Fault { seam: SeamKind::Find, nth: 0, status: *r.pick(&[0x2E, 0x7F, 0x01, 0x28]), sticky: false, late: false });
+                }
+            }
+        }
+        // one strict run in eight: the store has an item type of its own and some held entries do not convert
+        // into a passkey (sealed items); only CTAP-level registrations run there - whether an entry converts
+        // must not matter to the exclude check, which is about what is *held*
+        if !shipped && !faulty && !concurrent && r.chance(1, 8) && !c.prelude.is_empty() {
+            c.wrap = Wrap::Bare;
+            c.unconvertible = (0..c.prelude.len() as u32).filter(|_| r.bool()).collect();
+            if c.unconvertible.is_empty() {
+                c.unconvertible.push(0);
+            }
+            for a in c.actors.iter_mut() {
+                a.ops.retain(|o| matches!(o.kind, OpKind::MakeCredential(_)));
+                if a.ops.is_empty() {
+                    let rp = c.prelude[0].rp_id.clone();
+                    let mut s = gen_mc(&mut r, &rp);
+                    s.exclude = Some(vec![IdRef::NthOfRp(0)]);
+                    a.ops.push(plain_op(OpKind::MakeCredential(s)));
                 }
             }
         }
@@ -96,12 +115,15 @@ impl Family for C05Family {
         let c = ceremony_of(scn);
         let rec = run_and_measure(c, stats);
         let mut j = Judge::new("C05", scn, &rec);
-        for p in ["list_entries_with_transport_hints", "exclude_lookup_on_contended_store", "allow_list_of_unknown_type_descriptors", "eligible_credential_with_consent", "allow_list_names_other_rp_credential", "allow_list_all_misses", "empty_allow_list", "exclude_hit", "exclude_names_other_rp_credential", "shipped_lookup_without_ids", "shipped_lookup_with_ids", "shipped_store_holds_two_rps"] {
+        for p in ["list_entries_with_transport_hints", "exclude_lookup_on_contended_store", "allow_list_of_unknown_type_descriptors", "eligible_credential_with_consent", "allow_list_names_other_rp_credential", "allow_list_all_misses", "empty_allow_list", "exclude_hit", "exclude_names_other_rp_credential", "shipped_lookup_without_ids", "shipped_lookup_with_ids", "shipped_store_holds_two_rps", "exclude_check_over_unconvertible_items"] {
             stats.declare_probe(p);
         }
         if rec.panic.is_some() || rec.outcome != Outcome2::Done {
             stats.count("runs_not_judged", 1);
             return Vec::new();
+        }
+        if rec.fired.get("unconvertible_item_returned").copied().unwrap_or(0) > 0 {
+            stats.probe("exclude_check_over_unconvertible_items");
         }
         let mut sig = crate::rng::Fnv::new();
         let mut nontrivial = false;
